@@ -162,7 +162,11 @@ func c09W3Streams(o *opts, r *rng, prof *genProfile, tmp string, stats map[strin
 		if len(w.Stores) > 0 && (name == "C09xu" || name == "C09xf") {
 			ids = c09WideIds
 		}
-		g := &histGen{r: r, w: w, p: prof, ids: ids}
+		p, ids := c09Universe(r, prof, ids) // plain universes or prefix chains (store_c09_w5.go)
+		if p != prof {
+			stats["chain_universe_histories"]++
+		}
+		g := &histGen{r: r, w: w, p: p, ids: ids}
 		return w, ids, g.c09Populated(shape)
 	}
 	wirings := append(append([]string{}, prof.wirings...), c09ChildWirings...)
